@@ -64,11 +64,18 @@ class Run:
                     self.dispose()
 
             w.after_call = hook
-        if sc.get("raise_on_terminal"):
-            with vt.counting_subscribes():
+        self.cut_short = False
+        try:
+            if sc.get("raise_on_terminal"):
+                with vt.counting_subscribes():
+                    w.run(sc["horizon"])
+            else:
                 w.run(sc["horizon"])
-        else:
-            w.run(sc["horizon"])
+        except vt.Budget:
+            # a loop that re-schedules itself within one virtual instant and that nothing ends any more (e.g. while_do over a
+            # synchronous source whose downstream take() was cut off by a raising subscriber): the run is cut short, what was
+            # recorded up to here is still judged
+            self.cut_short = True
 
     def dispose(self):
         self.rec.dispose()
